@@ -1,4 +1,260 @@
-import RV.C07.Model
+import RV.C07.Lemmas
+import RV.C07.LemmasText
+/-
+  C07 — property statements (each first as `def Statement_… : Prop` at full strength), theorems,
+  non-vacuity examples.  "RDF terms obey identity laws: equality, hashing, ordering, pickling, n3 text."
+-/
 namespace RV.C07
-theorem placeholder : eqb (.iri []) (.iri []) = true := by decide
+
+/-! ## Equality -/
+
+/-- `==` is an equivalence relation and `!=` is its negation -/
+def Statement_eq_equiv : Prop :=
+  (∀ a, eqb a a = true) ∧ (∀ a b, eqb a b = eqb b a) ∧
+  (∀ a b c, eqb a b = true → eqb b c = true → eqb a c = true) ∧ (∀ a b, neb a b = !eqb a b)
+
+/-- IRIs, blank nodes, literals and variables are never equal to each other -/
+def Statement_eq_kind_disjoint : Prop := ∀ a b : Term, a.kind ≠ b.kind → eqb a b = false
+
+/-- literals are distinguished by lexical form, datatype and language tag up to case;
+    non-literal terms of one class by their string -/
+def Statement_lit_eq_iff : Prop :=
+  (∀ x d l x' d' l', eqb (.lit x d l) (.lit x' d' l') = true ↔ (x = x' ∧ d = d' ∧ langKey l = langKey l')) ∧
+  (∀ c s s', eqb (.node c s) (.node c s') = true ↔ s = s') ∧
+  (∀ l : Str, l ≠ [] → langKey (some l) = langKey (some (lower l)))
+
+theorem eq_equiv : Statement_eq_equiv :=
+  ⟨eqb_refl, eqb_symm, fun _ _ _ => eqb_trans, fun _ _ => rfl⟩
+
+theorem eq_kind_disjoint : Statement_eq_kind_disjoint := by
+  intro a b h
+  cases a with
+  | lit => cases b with
+    | lit => exact absurd rfl h
+    | node => rfl
+  | node c s => cases b with
+    | lit => rfl
+    | node c' s' =>
+      simp only [eqb, decide_eq_false_iff_not]
+      rintro ⟨e, _⟩
+      subst e
+      exact h rfl
+
+theorem lit_eq_iff : Statement_lit_eq_iff := by
+  refine ⟨?_, ?_, ?_⟩
+  · intro x d l x' d' l'
+    simp only [eqb, decide_eq_true_eq]
+    constructor
+    · rintro ⟨a, b, c⟩; exact ⟨c, a, b⟩
+    · rintro ⟨a, b, c⟩; exact ⟨b, c, a⟩
+  · intro c s s'; simp [eqb]
+  · intro l hl
+    cases l with
+    | nil => exact absurd rfl hl
+    | cons c s => simp [langKey, truthy, lower, lowerChar_idem]
+
+/-! ## Hashing -/
+
+/-- equal terms have equal hashes, whatever `str.__hash__` (and `^`) are -/
+def Statement_hash_coherent : Prop :=
+  ∀ (strHash : Str → Int) (xor : Int → Int → Int) (a b : Term),
+    eqb a b = true → hash strHash xor a = hash strHash xor b
+
+theorem hash_coherent : Statement_hash_coherent := by
+  intro strHash xor a b h
+  cases a with
+  | node c s => cases b with
+    | lit => simp [eqb] at h
+    | node c' s' =>
+      simp only [eqb, decide_eq_true_eq] at h
+      simp [hash, h.2]
+  | lit x d l => cases b with
+    | node => simp [eqb] at h
+    | lit x' d' l' =>
+      simp only [eqb, decide_eq_true_eq] at h
+      obtain ⟨hd, hl, hx⟩ := h
+      subst hd hx
+      simp only [hash]
+      have : (match truthy l with
+          | some t => xor (strHash x) (strHash (lower t))
+          | none => strHash x) =
+        (match truthy l' with
+          | some t => xor (strHash x) (strHash (lower t))
+          | none => strHash x) := by
+        simp only [langKey] at hl
+        cases h1 : truthy l <;> cases h2 : truthy l' <;> simp [h1, h2] at hl ⊢
+        rw [hl]
+      cases d with
+      | none => exact this
+      | some dd => exact congrArg (fun v => xor v (strHash dd)) this
+
+/-! ## Ordering -/
+
+/-- the order of kinds the property states: blank node < variable < IRI < literal -/
+def kindRank : Kind → Nat
+  | .bnode => 0
+  | .var => 1
+  | .iri => 2
+  | .lit => 3
+
+/-- terms of different kinds compare by kind (from the regenerated `_ORDERING` table and the
+    `isinstance(other, Node)` branches of `Literal.__gt__/__lt__`), whatever the value oracle -/
+def Statement_kind_order : Prop :=
+  ∀ (V : ValOracle) (a b : Term), a.kind ≠ b.kind →
+    (ltTerm V a b = true ↔ kindRank a.kind < kindRank b.kind) ∧
+    (gtTerm V a b = true ↔ kindRank a.kind > kindRank b.kind)
+
+theorem rank_kind (c c' : NCls) (h : c.kind ≠ c'.kind) :
+    (rank c < rank c' ↔ kindRank c.kind < kindRank c'.kind) ∧ (rank c > rank c' ↔ kindRank c.kind > kindRank c'.kind) := by
+  cases c <;> cases c' <;> first | exact absurd rfl h | decide
+
+theorem rank_lt_lit (c : NCls) : rank c < rankLit ∧ ¬ rank c > rankLit ∧ kindRank c.kind < kindRank Kind.lit := by
+  cases c <;> decide
+
+theorem kind_order : Statement_kind_order := by
+  intro V a b h
+  cases a with
+  | node c s => cases b with
+    | node c' s' =>
+      have hc : c ≠ c' := fun e => h (by subst e; rfl)
+      have := rank_kind c c' h
+      simp only [ltTerm, gtTerm, hc, if_false, decide_eq_true_eq, Term.kind]
+      exact this
+    | lit x d l =>
+      have := rank_lt_lit c
+      simp only [ltTerm, gtTerm, decide_eq_true_eq, Term.kind]
+      omega
+  | lit x d l => cases b with
+    | node c s =>
+      have := rank_lt_lit c
+      simp only [ltTerm, gtTerm, Term.kind]
+      constructor
+      · constructor
+        · intro h'; cases h'
+        · intro h'; omega
+      · constructor
+        · intro _; omega
+        · intro _; trivial
+    | lit => exact absurd rfl h
+
+/-- on IRIs, blank nodes and variables `<` is a strict total order whose equivalence is `==`,
+    `>` is its converse, and terms of one class order as their strings -/
+def Statement_nonlit_strict_total : Prop :=
+  ∀ (V : ValOracle) (a b c : Term), a.isNode → b.isNode → c.isNode →
+    ltTerm V a a = false ∧
+    (ltTerm V a b = true → ltTerm V b c = true → ltTerm V a c = true) ∧
+    (ltTerm V a b = true ∨ eqb a b = true ∨ ltTerm V b a = true) ∧
+    (eqb a b = true → ltTerm V a b = false ∧ gtTerm V a b = false) ∧
+    gtTerm V a b = ltTerm V b a
+
+def Statement_same_class_string_order : Prop :=
+  ∀ (V : ValOracle) (c : NCls) (s s' : Str),
+    ltTerm V (.node c s) (.node c s') = strLt s s' ∧ gtTerm V (.node c s) (.node c s') = strLt s' s
+
+theorem nonlit_strict_total : Statement_nonlit_strict_total := by
+  intro V a b c ha hb hc
+  have hirr : ∀ t : Term, t.isNode → ltTerm V t t = false := by
+    intro t ht; cases t with
+    | lit => cases ht
+    | node c s => exact lt_node_irrefl V c s
+  have heq : eqb a b = true → a = b := by
+    cases a with
+    | lit => cases ha
+    | node ca sa => cases b with
+      | lit => cases hb
+      | node cb sb => exact (eqb_node_iff _ _ _ _).mp
+  refine ⟨hirr a ha, lt_node_trans V ha hb hc, ?_, ?_, gt_node_eq_lt_swap V ha hb⟩
+  · by_cases e : a = b
+    · subst e; exact Or.inr (Or.inl (eqb_refl a))
+    · rcases lt_node_connected V ha hb e with h | h
+      · exact Or.inl h
+      · exact Or.inr (Or.inr h)
+  · intro h
+    have e := heq h
+    subst e
+    rw [gt_node_eq_lt_swap V ha ha]
+    exact ⟨hirr a ha, hirr a ha⟩
+
+theorem same_class_string_order : Statement_same_class_string_order := by
+  intro V c s s'; simp [ltTerm, gtTerm]
+
+/-- sorting a collection of IRIs, blank nodes and variables with `<` does not depend on the order
+    in which the collection is given, and the result is an increasing rearrangement of it -/
+def Statement_sort_deterministic : Prop :=
+  ∀ (V : ValOracle) (l l' : List Term), (∀ t ∈ l, t.isNode) → l.Perm l' →
+    sortT (ltTerm V) l = sortT (ltTerm V) l' ∧ (sortT (ltTerm V) l).Perm l ∧ SortedBy (ltTerm V) (sortT (ltTerm V) l)
+
+theorem sort_deterministic : Statement_sort_deterministic := by
+  intro V l l' hn hp
+  have hn' : ∀ t ∈ l', t.isNode := fun t ht => hn t (hp.mem_iff.mpr ht)
+  have hs := sorted_sortT V hn
+  have hs' := sorted_sortT V hn'
+  have p1 := perm_sortT (ltTerm V) l
+  have p2 := perm_sortT (ltTerm V) l'
+  refine ⟨?_, p1, hs⟩
+  exact sorted_perm_unique V (fun t ht => hn t (p1.mem_iff.mp ht)) hs hs' (p1.trans (hp.trans p2.symm))
+
+/-- equal terms are never strictly ordered (any kind).  For two literals this depends on the typed
+    values: FALSE for an arbitrary oracle (a NaN value is not equal to itself, see `_witness`) -/
+def Statement_order_consistent : Prop :=
+  ∀ (V : ValOracle) (a b : Term), eqb a b = true → ltTerm V a b = false ∧ gtTerm V a b = false
+
+/-- what the comparison of typed values has to satisfy on equal literals -/
+def SoundOracle (V : ValOracle) : Prop :=
+  ∀ (x : Str) (d l : Option Str) (x' : Str) (d' l' : Option Str),
+    eqb (.lit x d l) (.lit x' d' l') = true →
+      V.fast (.lit x d l) (.lit x' d' l') ≠ some true ∧ V.valGt (.lit x d l) (.lit x' d' l') ≠ some true ∧
+      V.eqv (.lit x d l) (.lit x' d' l') = some true
+
+theorem order_consistent_partial (V : ValOracle) (hV : SoundOracle V) (a b : Term) (h : eqb a b = true) :
+    ltTerm V a b = false ∧ gtTerm V a b = false := by
+  cases a with
+  | node c s => cases b with
+    | lit => simp [eqb] at h
+    | node c' s' => exact (nonlit_strict_total V _ _ _ rfl rfl (rfl : (Term.node c s).isNode)).2.2.2.1 h
+  | lit x d l => cases b with
+    | node => simp [eqb] at h
+    | lit x' d' l' =>
+      obtain ⟨h1, h2, h3⟩ := hV _ _ _ _ _ _ h
+      simp only [eqb, decide_eq_true_eq] at h
+      obtain ⟨hd, hl, hx⟩ := h
+      subst hd hx
+      have hgt : litGt V (.lit x d l) (.lit x d l') = false := by
+        simp only [litGt]
+        cases hf : V.fast (.lit x d l) (.lit x d l') with
+        | some r => cases r with
+          | true => exact absurd hf h1
+          | false => rfl
+        | none =>
+          simp only [hl, ne_eq, not_true_eq_false, if_false]
+          cases hv : V.valGt (.lit x d l) (.lit x d l') with
+          | some r => cases r with
+            | true => exact absurd hv h2
+            | false => rfl
+          | none => rfl
+      simp only [ltTerm, gtTerm, litLt, hgt, h3]
+      simp
+
+/-- a value comparison in which a value is not equal to itself (NaN) makes a literal `<` itself -/
+theorem order_consistent_witness : ¬ Statement_order_consistent := by
+  intro h
+  have := (h ⟨fun _ _ => none, fun _ _ => none, fun _ _ => some false⟩ (.lit [] none none) (.lit [] none none) (by decide)).1
+  revert this
+  decide
+
+/-- the oracle used by the driver (plain / xsd:string literals, value = lexical form) is sound -/
+theorem strOracle_sound : SoundOracle strOracle := by
+  intro x d l x' d' l' h
+  simp only [eqb, decide_eq_true_eq] at h
+  obtain ⟨hd, hl, hx⟩ := h
+  subst hd hx
+  refine ⟨by simp [strOracle], ?_, ?_⟩
+  · simp only [strOracle]
+    cases d with
+    | none => simp [strValue, strLt_irrefl]
+    | some dt =>
+      by_cases e : dt = Tables.xsdString <;> simp [strValue, e, strLt_irrefl]
+  · simp only [strOracle, hl, ne_eq, not_true_eq_false, if_false, and_self]
+    by_cases e : d.getD Tables.xsdString = Tables.xsdString <;> simp [e]
+
 end RV.C07
